@@ -101,11 +101,22 @@ def gen_input(rnd, pool, tier):
             origin = "gen-elf"
         except ValueError:
             origin, base = pool[rnd.randrange(len(pool))]
-    elif k < 0.38:
+    elif k < 0.34:
+        base = G.pe_build(G.pe_gen_spec(rnd))[0]
+        origin = "gen-pe"
+    elif k < 0.40:
         base = ("\n".join(G.hex_line(*r) for r in G.hex_gen(rnd)) + "\n").encode() if rnd.random() < 0.5 else ("\n".join(G.srec_line(*r) for r in G.srec_gen(rnd)) + "\n").encode()
         origin = "gen-records"
     else:
-        origin, base = pool[rnd.randrange(len(pool))]
+        # formats with few samples (PE, Mach-O) get the same share as ELF
+        groups = {}
+        for it in pool:
+            d_ = it[1]
+            g_ = "elf" if d_[:4] == b"\x7fELF" else "pe" if d_[:2] == b"MZ" else "macho" if d_[:4] in (b"\xfe\xed\xfa\xce", b"\xce\xfa\xed\xfe", b"\xfe\xed\xfa\xcf", b"\xcf\xfa\xed\xfe", b"\xca\xfe\xba\xbe") else "other"
+            groups.setdefault(g_, []).append(it)
+        names = sorted(groups)
+        grp = groups[names[rnd.randrange(len(names))]]
+        origin, base = grp[rnd.randrange(len(grp))]
     if rnd.random() < 0.4:
         n = rnd.randrange(0, min(len(base), 0x1000) + 1) if rnd.random() < 0.7 else rnd.randrange(0, len(base) + 1)
         return "truncated", origin, base[:n], None
@@ -130,6 +141,11 @@ def gen_input(rnd, pool, tier):
             return "field", origin, elf_field_mutation(rnd, base), None
         except Exception:
             pass
+    if base[:2] == b"MZ" and len(base) > 0x100 and rnd.random() < 0.6:
+        try:
+            return "field", origin, pe_field_mutation(rnd, base), None
+        except Exception:
+            pass
     for _ in range(rnd.randrange(1, 7)):
         if tables and rnd.random() < 0.5:
             lo, hi = tables[rnd.randrange(len(tables))]
@@ -141,6 +157,43 @@ def gen_input(rnd, pool, tier):
         v = [0, 0xFF, 0x7F, 0x80, rnd.getrandbits(8), b[p] ^ (1 << rnd.randrange(8)), 1][rnd.randrange(7)]
         b[p] = v
     return "corrupted", origin, bytes(b), None
+
+
+def pe_field_mutation(rnd, base):
+    """replace 1..3 whole fields of the COFF header / optional header / data directories / section table of a PE file by
+    boundary values"""
+    import struct
+
+    b = bytearray(base)
+    n = len(base)
+    lf, = struct.unpack_from("<I", base, 0x3C)
+    if lf + 24 + 96 > n or base[lf: lf + 4] != b"PE\0\0":
+        raise ValueError("not a PE")
+    nsec, = struct.unpack_from("<H", base, lf + 6)
+    optsz, = struct.unpack_from("<H", base, lf + 20)
+    magic, = struct.unpack_from("<H", base, lf + 24)
+    o = lf + 24
+    plus = magic == 0x20B
+    cands = [(lf + 4, 2), (lf + 6, 2), (lf + 20, 2), (o + 16, 4), (o + 32, 4), (o + 36, 4), (o + 56, 4), (o + 60, 4)]
+    cands.append((o + 24, 8) if plus else (o + 28, 4))  # ImageBase
+    nrva = o + (108 if plus else 92)
+    cands.append((nrva, 4))
+    ndir = min(struct.unpack_from("<I", base, nrva)[0], 16) if nrva + 4 <= n else 0
+    for k in range(ndir):
+        cands += [(nrva + 4 + 8 * k, 4), (nrva + 8 + 8 * k, 4)]
+    so = o + optsz
+    for k in range(min(nsec, 16)):
+        for f in (8, 12, 16, 20, 36):
+            cands.append((so + 40 * k + f, 4))
+    cands = [(x, w) for x, w in cands if x + w <= n]
+    for _ in range(rnd.randrange(1, 4)):
+        x, w = cands[rnd.randrange(len(cands))]
+        old = int.from_bytes(b[x: x + w], "little")
+        top = (1 << (8 * w)) - 1
+        vals = [0, 1, 2, 0xFF, top, top >> 1, (top >> 1) + 1, n, n - 1, n + 1, old + 1, old * 16, (0x7F << (8 * w - 8)) | old, old | (1 << (8 * w - 1)), rnd.getrandbits(8 * w)]
+        v = 0 if rnd.random() < 0.2 else vals[rnd.randrange(len(vals))] & top  # (0 is the classic divisor / size / count)
+        b[x: x + w] = v.to_bytes(w, "little")
+    return bytes(b)
 
 
 def elf_field_mutation(rnd, base):
@@ -196,7 +249,7 @@ def elf_field_mutation(rnd, base):
         if from_table and rnd.random() < 0.5:
             # huge values that keep the low bits (still a multiple of the entry size, still inside alignment checks)
             vals = [(0x7F << (8 * w - 8)) | old, old | (1 << (8 * w - 1)), old + (1 << (8 * w - 4)), old + (1 << (8 * w - 12)), old + (1 << 28)]
-        v = vals[rnd.randrange(len(vals))] & top
+        v = 0 if rnd.random() < 0.2 else vals[rnd.randrange(len(vals))] & top  # (0 is the classic divisor / size / count)
         b[o: o + w] = v.to_bytes(w, "little" if e == "<" else "big")
     return bytes(b)
 
